@@ -19,7 +19,8 @@ Section FitOps.
   Inductive fitcls := COLS | CWLS | CRWLS | CWTLS.
 
   (* what type_b.line_fit_wtls returned (an external computation for this property):
-     number of elementary uids consumed before a is declared, a.x a.u b.x b.u r_ab ssr N *)
+     number of elementary uids consumed before a is declared, a.x a.u b.x b.u, the correlation
+     of the type-B (a, b), ssr N *)
   Inductive wtls_oracle :=
   | mkWO (skip : Z) (ax au bx bu r ssr : V) (n : Z)
   | WOExn (skip : Z) (e : exn).        (* type_b.line_fit_wtls itself raised e *)
@@ -133,7 +134,10 @@ Section LineFitA.
     df <- g_line_fit_wtls_df N x y ux uy dof ;;
     match o with
     | None => Err OracleMissing
-    | Some (mkWO skip ax au bx bu r ssr n) => Ok (skip, Ok (mkFS ax au bx bu df r ssr n))
+    | Some (mkWO skip ax au bx bu r ssr n) =>
+        (* r_ab = [_clip_r(] a.get_correlation(b) [)] : generated, as the source has it *)
+        r_ab <- g_line_fit_wtls_r N r ;;
+        Ok (skip, Ok (mkFS ax au bx bu df r_ab ssr n))
     | Some (WOExn skip e) => Ok (skip, Err e)
     end.
 
